@@ -345,3 +345,127 @@ def gen_ers_world(rng, stats=None):
         for k, v in classes.items():
             stats["node_classes"][k] = stats["node_classes"].get(k, 0) + v
     return {"kind": "world", "objects": objs, "ops": ops, "options": {"affinity": affinity_mode, "default_mode": "auto"}}
+
+
+def gen_eds_world(rng, stats=None):
+    """a store and one to three reconciles of the ExtendedDaemonSet"""
+    n = rng.choice([0, 1, 2, 3, 4, 5, 6, 8, 10, 12])
+    tplA, tplB, tplC = gen_template(rng, 1), gen_template(rng, 2), gen_template(rng, 3)
+    scenario = rng.choice(["fresh", "undefaulted", "steady", "steady", "new_template", "canary_running", "canary_running",
+                           "canary_running", "canary_failed", "canary_failed", "active_missing", "many_rs", "no_canary_update"])
+    has_canary = scenario in ("canary_running", "canary_failed") or rng.random() < 0.4
+    if scenario == "no_canary_update":
+        has_canary = False
+    canary = gen_canary_spec(rng) if has_canary else None
+    if canary is not None and rng.random() < 0.25:
+        canary["nodeSelector"] = rng.choice([{"matchLabels": {"role": "w"}}, {"matchExpressions": [{"key": "zone", "operator": "In", "values": ["a"]}]},
+                                             {"matchExpressions": [{"key": "zone", "operator": "In", "values": []}]},
+                                             {"matchExpressions": [{"key": "zone", "operator": "Weird"}]}])
+    if canary is not None and rng.random() < 0.3:
+        canary["nodeAntiAffinityKeys"] = rng.choice([["zone"], ["zone", "role"], ["missing"]])
+    strat, freq = gen_strategy(rng, n, canary)
+    nodes = gen_nodes(rng, n)
+    node_names = [x["metadata"]["name"] for x in nodes]
+    objs = list(nodes)
+    role_canary = scenario in ("canary_running", "canary_failed")
+    ann = gen_eds_annotations(rng, role_canary or rng.random() < 0.2)
+    if scenario == "undefaulted":
+        strat = rng.choice([{}, {"rollingUpdate": {"maxUnavailable": "10%"}}, {"canary": {}}, {"canary": {"validationMode": "manual"}},
+                            {"canary": {"replicas": 2, "autoFail": {"enabled": False}}, "reconcileFrequency": "3s"},
+                            {"canary": {"duration": "1m", "autoPause": {"maxRestarts": 7}}}])
+    eds_tpl = tplA
+    rss = []
+
+    def mk_rs(nm, tpl, role, created, conds=None):
+        st = K.ers_status(status=role, desired=rng.choice([0, 0, n, rng.randint(0, n)]), current=rng.choice([0, 0, rng.randint(0, n)]),
+                          ready=rng.choice([0, 0, rng.randint(0, n)]), available=rng.choice([0, 0, rng.randint(0, n)]),
+                          ignored=rng.choice([0, 0, 1]), conditions=conds)
+        return K.ers(NS, nm, EDS, tpl, created=created, status=st)
+    est = K.eds_status()
+    if scenario in ("fresh", "undefaulted"):
+        if rng.random() < 0.3:
+            rss.append(mk_rs("foo-a", tplA, "", -30))
+    elif scenario in ("steady", "no_canary_update"):
+        rss.append(mk_rs("foo-a", tplA, "active", -3000))
+        est = K.eds_status(active="foo-a", desired=n, current=n, ready=n, available=n, uptodate=n, state="Running")
+        if scenario == "no_canary_update":
+            eds_tpl = tplB
+            rss.append(mk_rs("foo-b", tplB, "unknown", -20))
+    elif scenario == "new_template":
+        rss.append(mk_rs("foo-a", tplA, "active", -3000))
+        eds_tpl = tplB
+        est = K.eds_status(active="foo-a", desired=n, current=n, ready=n, available=n, uptodate=n, state="Running")
+    elif scenario in ("canary_running", "canary_failed"):
+        rss.append(mk_rs("foo-a", tplA, "active", -3000))
+        conds = []
+        if scenario == "canary_failed" or rng.random() < 0.1:
+            conds.append(K.cond("Canary-Failed", "True", trans=rng.choice([-10, -119, -120, -121, -500]), reason=rng.choice(["CrashLoopBackOff", "Manually failed"])))
+        elif rng.random() < 0.1:
+            conds.append(K.cond("Canary-Failed", "False", trans=-10))
+        if rng.random() < 0.25:
+            conds.append(K.cond("Canary-Paused", rng.choice(["True", "True", "False"]), trans=-10, reason=rng.choice(["ImagePullBackOff", "CrashLoopBackOff"])))
+        if rng.random() < 0.3:
+            conds.append(K.cond("PodRestarting", "True", trans=-400, update=rng.choice([-301, -300, -299, -31, -30, -29, -5])))
+        created = rng.choice([-601, -600, -599, -61, -60, -59, -11, -10, -9, -5, -3000])
+        rss.append(mk_rs("foo-b", tplB, "canary", created, conds))
+        eds_tpl = tplB
+        k = rng.choice([0, 0, 1, 1, 2, 3])
+        cn = rng.sample(node_names, min(k, len(node_names)))
+        if rng.random() < 0.15:
+            cn.append("n-gone")
+        can = {"replicaSet": rng.choice(["foo-b", "foo-b", "foo-b", "foo-old"]), "nodes": cn} if rng.random() < 0.8 else None
+        est = K.eds_status(active="foo-a", desired=rng.choice([n, n, 0, n + len(cn)]), current=n, ready=n, available=n, uptodate=n,
+                           state=rng.choice(["Running", "Canary", "Canary Paused"]), canary=can,
+                           conditions=rng.choice([None, None, [K.cond("Canary-Paused", "True", trans=-50, reason="ImagePullBackOff")],
+                                                  [K.cond("Canary-Failed", "False", trans=-50), K.cond("Canary-Paused", "False", trans=-50)]]))
+    elif scenario == "active_missing":
+        rss.append(mk_rs("foo-b", tplB, "", -3000))
+        eds_tpl = tplB
+        est = K.eds_status(active=rng.choice(["foo-gone", ""]), desired=n)
+    elif scenario == "many_rs":
+        rss.append(mk_rs("foo-a", tplA, "active", -3000))
+        eds_tpl = rng.choice([tplA, tplB])
+        rss.append(mk_rs("foo-b", tplB, "unknown", -2000, [K.cond("Canary-Failed", "True", trans=rng.choice([-100, -120, -121, -1000]))] if rng.random() < 0.5 else None))
+        rss.append(mk_rs("foo-c", tplC, "unknown", -1000))
+        if rng.random() < 0.5:
+            rss.append(mk_rs("foo-a2", tplA, "unknown", -500))   # a second replica set with the same template
+        if rng.random() < 0.3:
+            rss[-1]["metadata"]["deletionTimestamp"] = K.ts(-5)
+            rss[-1]["metadata"]["finalizers"] = ["x/y"]
+        est = K.eds_status(active="foo-a", desired=n, current=n, ready=n, available=n, uptodate=n, state="Running")
+    # same-named objects elsewhere
+    if rng.random() < 0.15:
+        rss.append(K.ers("ns2", "foo-x", EDS, eds_tpl, created=-100))
+    if rng.random() < 0.1:
+        rss.append(K.ers(NS, "bar-a", "bar", eds_tpl, created=-100))
+    e = K.eds(NS, EDS, eds_tpl, strategy=strat, annotations=ann, status=est,
+              labels=rng.choice([None, None, {"team": "x"}]))
+    if rng.random() < 0.08:
+        e["spec"]["template"]["metadata"]["name"] = "named"
+    objs.append(e)
+    objs += rss
+    # pods with restart history (for canary node selection)
+    for nn in node_names:
+        if rng.random() < 0.7:
+            restarts = rng.choice([0, 0, 0, 1, 2, 5])
+            objs.append(K.pod(NS, "p-" + nn, eds_name=EDS, rs_name="foo-a", hash_value="@HASH:foo-a" if any(r["metadata"]["name"] == "foo-a" for r in rss) else "x",
+                              node=nn, cstats=[K.container_status("main", restarts=restarts, last_reason="Error" if restarts else None,
+                                                                  last_finished=-50 if restarts else None)]))
+    if rng.random() < 0.1 and node_names:
+        objs.append(K.pod("ns2", "twin", eds_name=EDS, rs_name="foo-a", hash_value="x", node=node_names[0],
+                          cstats=[K.container_status("main", restarts=9, last_reason="Error", last_finished=-50)]))
+    ops = []
+    faults = None
+    if rng.random() < 0.1:
+        faults = rng.choice([{"status": True}, {"update": True}, {"rs_delete": ["*"]}, {"rs_create": True}])
+        if "rs_delete" in faults:
+            faults = {"rs_delete": [r["metadata"]["name"] for r in rss]}
+    ops.append(K.reconcile("eds", NS, EDS, faults))
+    for _ in range(rng.choice([0, 1, 2])):
+        if rng.random() < 0.5:
+            ops.append(K.sleep(rng.choice([1, 10, 60, 120, 600])))
+        ops.append(K.reconcile("eds", NS, EDS))
+    if stats is not None:
+        stats.setdefault("eds_scenarios", {})
+        stats["eds_scenarios"][scenario] = stats["eds_scenarios"].get(scenario, 0) + 1
+    return {"kind": "world", "objects": objs, "ops": ops, "options": {"affinity": False, "default_mode": rng.choice(["auto", "auto", "manual"])}}
